@@ -107,7 +107,18 @@ class G:
         # keyword arguments after positional ones
         args = [a for a in args if a[0] == "pos"] + [a for a in args if a[0] == "kw"]
         if ns_style:
-            args = [a if a[2][0] != "var" or r.random() < 0.7 else ("kw", a[1], ("mix", "m", a[2][1], "n")) for a in args]
+            # mixtures of literal text and ${}: the literal parts may be blank (a space between two values IS text)
+            def mix(a):
+                if a[2][0] == "lit" and r.random() < 0.15:
+                    return ("kw", a[1], ("lit", r.choice([" ", "  ", " L "])))
+                if a[2][0] != "var" or r.random() < 0.6:
+                    return a
+                pre, post = r.choice(["m", " ", "", "  "]), r.choice(["n", " ", "", "\t"])
+                if r.random() < 0.4:
+                    return ("kw", a[1], ("mix2", pre, a[2][1], r.choice([" ", "-", "  "]), r.choice(avail), post))
+                return ("kw", a[1], ("mix", pre, a[2][1], post))
+
+            args = [mix(a) for a in args]
         return args
 
     def make_def(self, idx, ndefs, nested_level=0):
